@@ -257,6 +257,29 @@ func main() {
 			}
 		}
 	}
+	// ---- C27 static side condition: output call sites in the package that no harness reached ----
+	if *prop == "C27" {
+		reached := map[string]bool{}
+		for _, r := range results {
+			for _, v := range r.Violations {
+				if v.Kind == "FORBIDDEN" {
+					reached[v.Msg] = true
+				}
+			}
+		}
+		for _, site := range forbiddenCallSites(prog, pkg) {
+			hit := false
+			for m := range reached {
+				if strings.Contains(m, site.pos) {
+					hit = true
+				}
+			}
+			if !hit {
+				inconclusive = true
+				fmt.Printf("INCONCLUSIVE C27: the package calls %s at %s (in %s) and no C27 harness reaches that call\n", site.callee, site.pos, site.fn)
+			}
+		}
+	}
 	// ---- witness validation: sampled complete paths executed against the native build ----
 	witT := time.Now()
 	natOK, ssaOK, problems := validateWitnesses(prog, pkg, results, overlay, mutated, known, *noReplay)
@@ -425,7 +448,7 @@ func runHarness(prog *ssa.Program, pkg *ssa.Package, c harnessCfg, thorough bool
 	e := &Engine{ts: ts, sol: sol, prog: prog, pkg: pkg, FuncsSeen: map[string]bool{}, ModelsUsed: map[string]bool{},
 		Assumptions: map[string]bool{}, AssertSites: map[string]int{}, MaxSteps: 4000000, MaxPaths: 200000, MaxForks: 4096,
 		PreemptBound: c.Preempt, nodeByID: map[int]*PtrV{}, globals: map[*ssa.Global]*Object{}, overrides: c.Overrides,
-		tierThorough: thorough, crcMemo: map[string]*Term{}, reMemo: map[string]*Term{}}
+		tierThorough: thorough, crcMemo: map[string]*Term{}, jsonMemo: map[string]*IfaceV{}, reMemo: map[string]*Term{}}
 	if c.MaxSteps > 0 {
 		e.MaxSteps = c.MaxSteps
 	}
@@ -488,4 +511,62 @@ func loadKnown() map[string]knownFinding {
 		out[k.ID] = k
 	}
 	return out
+}
+
+
+type forbiddenSite struct{ callee, pos, fn string }
+
+// forbiddenCallSites lists the static calls to output functions in /repo's own (non-harness) code.
+func forbiddenCallSites(prog *ssa.Program, pkg *ssa.Package) []forbiddenSite {
+	var out []forbiddenSite
+	for fn := range ssautil.AllFunctions(prog) {
+		if fn.Blocks == nil {
+			continue
+		}
+		root := fn
+		for root.Parent() != nil {
+			root = root.Parent()
+		}
+		if root.Pkg != pkg && !(root.Pkg == nil && root.Origin() != nil && root.Origin().Pkg == pkg) {
+			continue
+		}
+		file := prog.Fset.Position(fn.Pos()).Filename
+		if strings.Contains(file, "zz_verif_") || strings.HasSuffix(file, "_test.go") || file == "" {
+			continue
+		}
+		for _, b := range fn.Blocks {
+			for _, ins := range b.Instrs {
+				c, ok := ins.(ssa.CallInstruction)
+				if !ok {
+					continue
+				}
+				name := ""
+				if callee := c.Common().StaticCallee(); callee != nil {
+					name = callee.String()
+				} else if bi, ok := c.Common().Value.(*ssa.Builtin); ok && (bi.Name() == "print" || bi.Name() == "println") {
+					name = "builtin " + bi.Name()
+				}
+				if name == "" || !isForbiddenOutput(name) {
+					continue
+				}
+				p := prog.Fset.Position(ins.Pos())
+				out = append(out, forbiddenSite{name, fmt.Sprintf("%s:%d", filepath.Base(p.Filename), p.Line), fn.String()})
+			}
+		}
+	}
+	sort.Slice(out, func(i, j int) bool { return out[i].pos < out[j].pos })
+	return out
+}
+
+func isForbiddenOutput(name string) bool {
+	if strings.HasPrefix(name, "builtin ") {
+		return true
+	}
+	for _, n := range []string{"fmt.Print", "fmt.Println", "fmt.Printf", "log.Print", "log.Println", "log.Printf", "log.Fatal", "log.Fatalf", "log.Fatalln", "log.Panic", "log.Panicf",
+		"log/slog.Info", "log/slog.Warn", "log/slog.Error", "log/slog.Debug", "log/slog.Log", "log/slog.Default", "log/slog.InfoContext", "log/slog.WarnContext", "log/slog.ErrorContext", "log/slog.DebugContext"} {
+		if name == n {
+			return true
+		}
+	}
+	return false
 }
